@@ -1318,7 +1318,7 @@ func TestVerifC17(t *testing.T) {
 	log.SetOutput(io.Discard)
 	rep := mc.NewReport("C17")
 	writes := mc.Pick(6, 12)
-	rep.Rule = "a case = one real child process running one of the two workloads under the harness's ptrace tracer and killed (SIGKILL at syscall entry) at the N-th write-family syscall on a database or binlog file; every N of the unkilled run, both commit modes; after each kill the 4 clauses are checked on copies of the directory; the callers of the concurrent workload are writers, failing writers, View readers and readers through Do() (empty event). non-trivial = crash state in which database and binlog disagree before recovery (stored offset behind the binlog end, hot journal, or binlog rotation half done)"
+	rep.Rule = "a case = one real child process running one of the two workloads under the harness's ptrace tracer and killed (SIGKILL at syscall entry) at the N-th write-family syscall on a database or binlog file; every N of the unkilled run, both commit modes; after each kill the 4 clauses are checked on copies of the directory; the callers of the concurrent workload are writers, failing writers, View readers and readers through Do() (empty event). non-trivial = crash state in which database and binlog disagree before recovery (stored offset behind the binlog end, hot journal, or binlog rotation half done). Plus the deterministic family \"replay with every payload cut\" (no ptrace): a case = one life of the real engine in the replay path (replica / master restart) driven by a harness binlog that mimics the fsbinlog reader over the binlog files of the scripted workload: every read-window end (payload cut) at a 4-byte boundary, Commit callbacks at every set of callback boundaries up to the bound; the database files are read after EVERY callback (= process-kill image) and every distinct image gets the same crash-state oracle (signatures C17:replay:*)"
 	rep.Bounds["writes"] = writes
 	rep.Bounds["workload"] = fmt.Sprintf("%d binlog-producing writes over 3-5 colliding keys (set/overwrite/delete/non-idempotent add), 1-2 callbacks that fail after executing SQL, View reads from the main goroutine and from a concurrent reader, 1-2 binlog rotations (MaxChunkSize %d), CommitEvery 10ms, WriteCallDelay 6ms", writes, c17ChunkSize)
 	rep.Bounds["workload_conc"] = fmt.Sprintf("concurrent writers: 4 goroutines with think times 5/13/23/31 ms issue %d Do() each over 3 colliding keys (set / non-idempotent add / delete) plus one failing callback, the concurrent View reader and %d goroutines that read through Do() (empty event; think times %v) for as long as the writers run; CommitEvery 10ms, WriteCallDelay 40ms (the binlog lags the SQL transaction by up to 40 ms, several commit periods), no rotation; sequence numbers and model states are fixed inside the (serialised) callback", mc.Pick(3, 5), len(c17DoReaders), c17DoReaders)
@@ -1391,6 +1391,16 @@ func TestVerifC17(t *testing.T) {
 	variants := []string{"seq", "conc"}
 	if only := os.Getenv("C17_ONLY"); only != "" { // debugging aid
 		variants = []string{only}
+		if only == "replay" {
+			variants = nil
+		}
+	}
+	// deterministic family first (a wall-budget cap of the kill-point families never removes it): the replay path
+	// driven with every payload cut and Commit placement, image of the database files after every callback
+	if only := os.Getenv("C17_ONLY"); only == "" || only == "replay" {
+		if err := c17ReplayFamily(cfg, rep, emit); err != nil {
+			infra(err.Error())
+		}
 	}
 	// two unkilled reference runs per (workload, mode), all in parallel: M = max number of matching syscalls per class
 	type refKey struct{ variant, mode string }
